@@ -336,6 +336,10 @@ func replayEnc(line []byte, a *Acc) {
 	doc := renderDoc(l.D, encLineNo%3)
 	plain := renderDoc(l.D, 0)
 	cases, nontriv := 0, 0
+	var hl held
+	defer hl.check(func(name, was, now string) {
+		a.Mis("enc:result-changed-later", fmt.Sprintf("document %s: the result of %s was %q when returned and reads %q after later calls", plain, name, was, now), l)
+	})
 	for _, g := range l.G {
 		expMap := g.R.Norm()
 		for _, code := range g.Os {
@@ -361,6 +365,8 @@ func replayEnc(line []byte, a *Acc) {
 				one("enc:panic", p)
 				continue
 			}
+			hl.add("Map.Xml() under "+code, b)
+			hl.add("Map.XmlIndent() under "+code, bi)
 			if e1 != nil || e2 != nil {
 				one("enc:error", fmt.Sprintf("Xml/XmlIndent returned errors %v / %v", e1, e2))
 				continue
@@ -432,6 +438,8 @@ type encvVal struct {
 }
 type encvLine struct {
 	F  string     `json:"f"`
+	Ap string     `json:"ap,omitempty"`
+	Kp string     `json:"kp,omitempty"`
 	M  *tagged.TV `json:"m"`
 	Cs []encvCase `json:"cs"`
 	Vs []encvVal  `json:"vs"`
@@ -442,8 +450,17 @@ func replayEncv(line []byte, a *Acc) {
 	if err := json.Unmarshal(line, &l); err != nil {
 		panic(err)
 	}
-	defer func() { mxj.XmlDefaultEmptyElemSyntax(); mxj.XMLEscapeChars(false) }()
+	defer func() {
+		mxj.XmlDefaultEmptyElemSyntax()
+		mxj.XMLEscapeChars(false)
+		mxj.SetAttrPrefix("-")
+		mxj.SetGlobalKeyMapPrefix("#")
+	}()
 	mxj.XMLEscapeChars(true)
+	if l.Ap != "" {
+		mxj.SetAttrPrefix(l.Ap)
+		mxj.SetGlobalKeyMapPrefix(l.Kp)
+	}
 	mv := l.M.ToMap()
 	before := tagged.CanonGo(mv)
 	nontriv := 0
@@ -454,10 +471,14 @@ func replayEncv(line []byte, a *Acc) {
 			mxj.XmlDefaultEmptyElemSyntax()
 		}
 	}
+	var hl held
+	defer hl.check(func(name, was, now string) {
+		a.Mis("encv:result-changed-later", fmt.Sprintf("value %s: the result of %s was %q when returned and reads %q after later encoder calls", short(before), name, was, now), l)
+	})
 	for _, c := range l.Cs {
 		setGo(c.Go)
 		one := func(sig, detail string) {
-			a.Mis(sig, fmt.Sprintf("value %s (go-empty-syntax %v): %s", short(before), c.Go, detail), encvLine{F: "encv", M: l.M, Cs: []encvCase{c}})
+			a.Mis(sig, fmt.Sprintf("value %s (go-empty-syntax %v): %s", short(before), c.Go, detail), encvLine{F: "encv", Ap: l.Ap, Kp: l.Kp, M: l.M, Cs: []encvCase{c}})
 		}
 		if c.One {
 			nontriv++
@@ -486,6 +507,8 @@ func replayEncv(line []byte, a *Acc) {
 			one("encv:panic:"+c.Kind, name+": "+p)
 			continue
 		}
+		hl.add(name, b)
+		hl.add(name+" (indented)", bi)
 		wantErr := c.X == "!ERR"
 		if c.Kind != "indentroot" {
 			if (err != nil) != wantErr {
@@ -528,11 +551,11 @@ func replayEncv(line []byte, a *Acc) {
 		var b []byte
 		var err error
 		if p := guard(func() { b, err = mxj.AnyXml(v, "r") }); p != "" {
-			a.Mis("encv:anyval:panic", p, encvLine{F: "encv", M: l.M, Vs: []encvVal{c}})
+			a.Mis("encv:anyval:panic", p, encvLine{F: "encv", Ap: l.Ap, Kp: l.Kp, M: l.M, Vs: []encvVal{c}})
 			continue
 		}
 		if (err != nil) != (c.X == "!ERR") || (err == nil && string(b) != c.X) {
-			a.Mis(fmt.Sprintf("encv:anyval:bytes:go=%v", c.Go), fmt.Sprintf("AnyXml(%s, \"r\") = (%q, %v), specification gives %q", tagged.CanonGo(v), b, err, c.X), encvLine{F: "encv", M: l.M, Vs: []encvVal{c}})
+			a.Mis(fmt.Sprintf("encv:anyval:bytes:go=%v", c.Go), fmt.Sprintf("AnyXml(%s, \"r\") = (%q, %v), specification gives %q", tagged.CanonGo(v), b, err, c.X), encvLine{F: "encv", Ap: l.Ap, Kp: l.Kp, M: l.M, Vs: []encvVal{c}})
 		}
 	}
 	if tagged.CanonGo(mv) != before {
@@ -609,6 +632,10 @@ func replaySeq(line []byte, a *Acc) {
 		mixed = "mixed"
 	}
 	cases := 0
+	var hl held
+	defer hl.check(func(name, was, now string) {
+		a.Mis("seq:result-changed-later", fmt.Sprintf("document %s: the result of %s was %q when returned and reads %q after later calls", plain, name, was, now), l)
+	})
 	for _, g := range l.G {
 		parts := strings.SplitN(g.Code, "|", 3)
 		mxj.CoerceKeysToSnakeCase(parts[0] == "1")
@@ -652,6 +679,9 @@ func replaySeq(line []byte, a *Acc) {
 			one("seq:indent-panic:"+mixed, p)
 			continue
 		}
+		hl.add("MapSeq.Xml() under "+g.Code, b)
+		hl.add("MapSeq.XmlIndent() under "+g.Code, bi)
+		hl.add("BeautifyXml() under "+g.Code, bb)
 		ts, _ := significantTokens(b, false)
 		for i, out := range [][]byte{bi, bb} {
 			name := []string{"MapSeq.XmlIndent", "BeautifyXml"}[i]
@@ -704,6 +734,8 @@ type escLine struct {
 	E     string `json:"e"`
 	Xe    string `json:"xe"`
 	Xa    string `json:"xa"`
+	Xa2   string `json:"xa2"`
+	S2    string `json:"s2"`
 	Xm    string `json:"xm"`
 	Xl    string `json:"xl"`
 	RawOK bool   `json:"rawok"`
@@ -758,13 +790,15 @@ func replayEsc(line []byte, a *Acc) {
 		"attr":  {"a": map[string]interface{}{"-x": l.S}},
 		"mixed": {"a": map[string]interface{}{"#text": l.S, "b": ""}},
 		"list":  {"a": []interface{}{l.S, "x"}},
+		"attr2": {"a": map[string]interface{}{"-x": l.S, "-y": l.S2}},
 	}
 	seqs := map[string]mxj.MapSeq{
 		"elem":  {"a": map[string]interface{}{"#text": l.S, "#seq": 0}},
 		"attr":  {"a": map[string]interface{}{"#attr": map[string]interface{}{"x": map[string]interface{}{"#text": l.S, "#seq": 0}}}},
 		"mixed": {"a": map[string]interface{}{"#text": l.S, "#seq": 0, "b": map[string]interface{}{"#text": "", "#seq": 1}}},
+		"attr2": {"a": map[string]interface{}{"#attr": map[string]interface{}{"x": map[string]interface{}{"#text": l.S, "#seq": 0}, "y": map[string]interface{}{"#text": l.S2, "#seq": 1}}}},
 	}
-	expX := map[string]string{"elem": l.Xe, "attr": l.Xa, "mixed": l.Xm, "list": l.Xl}
+	expX := map[string]string{"elem": l.Xe, "attr": l.Xa, "mixed": l.Xm, "list": l.Xl, "attr2": l.Xa2}
 	// ---- mode 1: encoder-side escaping
 	mxj.XMLEscapeChars(true)
 	for pos, m := range maps {
@@ -794,6 +828,10 @@ func replayEsc(line []byte, a *Acc) {
 				want = trimDoc(l.S)
 			case "attr":
 				got, _ = back.ValueForPath("a.-x")
+			case "attr2":
+				g1, _ := back.ValueForPath("a.-x")
+				g2, _ := back.ValueForPath("a.-y")
+				got, want = fmt.Sprint(g1, "\x00", g2), fmt.Sprint(l.S, "\x00", l.S2)
 			case "mixed":
 				got, _ = back.ValueForPath("a.#text")
 				want = trimDoc(l.S)
@@ -839,6 +877,10 @@ func replayEsc(line []byte, a *Acc) {
 				}
 			case "attr":
 				got, _ = mxj.Map(back).ValueForPath("a.#attr.x.#text")
+			case "attr2":
+				g1, _ := mxj.Map(back).ValueForPath("a.#attr.x.#text")
+				g2, _ := mxj.Map(back).ValueForPath("a.#attr.y.#text")
+				got, want = fmt.Sprint(g1, "\x00", g2), fmt.Sprint(l.S, "\x00", l.S2)
 			}
 			if derr != nil || got != want {
 				one("esc:seq:decode-back:"+pos, fmt.Sprintf("%s = %q decodes to %q (err %v), want %q", name, out, got, derr, want))
